@@ -853,7 +853,8 @@ def r5b_loaders_and_converters(chk):
     prog = chk.prog
     for cname in ("JobInput", "JobOutput"):
         ci = prog.cls(f"{JOB}:{cname}")
-        mem = ci.members.get("load")
+        hit = prog.lookup(ci, "load")      # own method, or inherited from a private base record class
+        mem = hit[1] if hit is not None else None
         chk.require(mem is not None and mem.func is not None, f"{cname}.load vanished")
         memo = [norm(d) for d in mem.func.decorator_list if any(k_ in norm(d) for k_ in ("cache", "lru_cache"))]
         chk.decide(not memo, "C17.R5", f"{ci.module.relpath}:{cname}.load:reads-the-file-on-every-call", f"{ci.module.relpath}:{mem.func.lineno}", "not memoised",
